@@ -2,7 +2,8 @@
 From PowHsm Require Import Model.Admin.
 From PowHsm Require Export Model.CaseCheck.
 
-Inductive admin_cmd := AUnlock (do_exit no_exec : bool) | AOnboard | AChangepin | APubkeys.
+Inductive admin_cmd := AUnlock (do_exit no_exec : bool) | AOnboard | AChangepin | APubkeys
+                     | AOnboardUnlock.   (* onboard.py through the unlock that follows dispose_hsm *)
 Inductive aoutcome := ADone | AAdminError | AOther.
 
 Definition aoutcome_eqb (a b : aoutcome) : bool :=
@@ -32,6 +33,8 @@ Definition check_dcase (c : dcase) : bool :=
     match dc_cmd c with
     | AUnlock e n => let '(r, w) := do_unlock k o e n (dc_typed c) w0 in (out_of r, w, None)
     | AOnboard => let '(r, w) := do_onboard k o (dc_stdin c) (dc_typed c) (dc_seed c) w0 in (out_of r, w, None)
+    | AOnboardUnlock => let '(r, w) := do_onboard_through_unlock k o (dc_stdin c) (dc_typed c) (dc_seed c) w0 in
+                        (out_of r, w, None)
     | AChangepin => let '(r, w) := do_changepin k o (dc_typed c) w0 in (out_of r, w, None)
     | APubkeys => let '(r, w) := do_get_pubkeys k o (dc_typed c) w0 in
                   (out_of r, w, match r with Ok l => Some l | _ => None end)
